@@ -10,16 +10,17 @@ EXTENDS Integers, Sequences, TLC, Json, IOUtils
 Trace == ndJsonDeserialize(IOEnv.TRACE)
 NL == Len(Trace)
 
-EAGAIN == 11  ECONNREFUSED == 111  ETIMEDOUT == 110  EPROTO == 71  ENOENT == 2
+EAGAIN == 11  ECONNREFUSED == 111  ETIMEDOUT == 110  EPROTO == 71  ENOENT == 2  EPIPE == 32  EMSGSIZE == 90  EINVAL == 22
 
 VARIABLES l,      \* next line
           tp, scen, up,
           srvc,   \* the server socket exists and awaits ACCEPTABLE
+          terr,   \* <<e1, e2>>: errno of the first failure of the connection each endpoint has reported (0 = none)
           nv
 
-vars == <<l, tp, scen, up, srvc, nv>>
+vars == <<l, tp, scen, up, srvc, terr, nv>>
 
-Init == l = 1 /\ tp = "none" /\ scen = "none" /\ up = 0 /\ srvc = FALSE /\ nv = 0
+Init == l = 1 /\ tp = "none" /\ scen = "none" /\ up = 0 /\ srvc = FALSE /\ terr = <<0, 0, 0>> /\ nv = 0
 
 Chk(c, t, x, o) == [c |-> c, t |-> t, x |-> x, o |-> o]
 Failed(cs) == SelectSeq(cs, LAMBDA r : ~r.c)
@@ -28,6 +29,7 @@ Report(ln, cs) ==
   IF f = <<>> THEN TRUE ELSE \A i \in 1..Len(f) : PrintT(<<"@V", ln.x, ln.n, f[i].t, f[i].x, f[i].o>>)
 
 TlsBased == tp \in {"tls", "btls", "utls"}
+TcpBased == tp \in {"tcp", "btcp", "tls", "btls", "utls"}
 \* what the remote address does in each scenario (Peer of XcmEst) and the errno the documentation promises for it
 PeerOf(s) == CASE s = "normal" -> "accept" [] s = "refused" -> "refuse" [] s = "silent" -> "silent"
                [] s = "release" -> "late" [] s = "mute" -> "mute" [] s = "garbage" -> "garbage" [] OTHER -> "none"
@@ -38,6 +40,7 @@ ApiOps == {"sv", "cn", "ac", "f", "s", "r", "a", "fd", "ga", "sa", "cl"}
 \* every API call on these non-blocking sockets
 StepApi(ln) ==
   LET rdOk(v) == v \in {-1, 0, 1}
+      data == ln.op \in {"f", "s", "r"} /\ ln.e \in {1, 2}
       cs == <<
         \* C05: no waiting primitive inside a call on a non-blocking socket, whatever the phase
         Chk(ln.w = 0, "C05.wait", <<ln.op, scen>>, ln.w),
@@ -53,11 +56,17 @@ StepApi(ln) ==
         \* in the fault-free scenario no call ever reports a failure of the connection
         Chk(~(scen = "normal" /\ ln.op \in {"f", "s", "r"} /\ ln.ret = -1 /\ ln.err # EAGAIN /\ ln.e = 1), "C04.progress", EAGAIN, ln.err),
         Chk(~(scen = "idle" /\ ln.op = "ac") \/ (ln.ret = -1 /\ ln.err = EAGAIN), "C16.accept_idle", EAGAIN, ln.err),
-        Chk(ln.op # "a" \/ ln.ret = 0, "MM", 0, ln.ret)
+        Chk(ln.op # "a" \/ ln.ret = 0, "MM", 0, ln.ret),
+        \* C06: a failure of the connection sticks: no later send / receive succeeds, and on the TCP-based transports
+        \* send, receive and finish keep reporting the errno of the first failure
+        Chk(~(data /\ terr[ln.e] # 0 /\ ln.op \in {"s", "r"}) \/ ln.ret = -1, "C06.sticky", terr[ln.e], ln.ret),
+        Chk(~(data /\ terr[ln.e] # 0 /\ TcpBased /\ ln.ret = -1) \/ ln.err \in {terr[ln.e], EMSGSIZE, EINVAL}, "C06.errno", terr[ln.e], ln.err)
       >>
+      fail == data /\ ln.ret = -1 /\ ln.err \notin {EAGAIN, EMSGSIZE, EINVAL} /\ ~(ln.op \in {"s", "f"} /\ ln.err = EPIPE)
   IN /\ Report(ln, cs)
      /\ nv' = nv + Len(Failed(cs))
      /\ srvc' = (IF ln.op = "a" /\ ln.e = 3 /\ ln.ret = 0 THEN TRUE ELSE IF ln.op = "cl" /\ ln.e = 3 THEN FALSE ELSE srvc)
+     /\ terr' = (IF fail /\ terr[ln.e] = 0 THEN [terr EXCEPT ![ln.e] = ln.err] ELSE terr)
      /\ UNCHANGED <<tp, scen, up>>
 
 \* the end of the run: what the two event-loop applications have seen
@@ -84,17 +93,17 @@ StepQ(ln) ==
       >>
   IN /\ Report(ln, cs)
      /\ nv' = nv + Len(Failed(cs))
-     /\ UNCHANGED <<tp, scen, up, srvc>>
+     /\ UNCHANGED <<tp, scen, up, srvc, terr>>
 
 Next ==
   /\ l <= NL
   /\ l' = l + 1
   /\ LET ln == Trace[l] IN
-     CASE ln.op = "X" -> tp' = ln.tp /\ scen' = ln.scen /\ up' = ln.up /\ srvc' = FALSE /\ nv' = nv
+     CASE ln.op = "X" -> tp' = ln.tp /\ scen' = ln.scen /\ up' = ln.up /\ srvc' = FALSE /\ terr' = <<0, 0, 0>> /\ nv' = nv
        [] ln.op \in ApiOps -> StepApi(ln)
        [] ln.op = "q" -> StepQ(ln)
-       [] ln.op = "crash" -> PrintT(<<"@V", ln.x, ln.n, "CRASH", 0, ln.why>>) /\ nv' = nv + 1 /\ UNCHANGED <<tp, scen, up, srvc>>
-       [] OTHER -> UNCHANGED <<tp, scen, up, srvc, nv>>
+       [] ln.op = "crash" -> PrintT(<<"@V", ln.x, ln.n, "CRASH", 0, ln.why>>) /\ nv' = nv + 1 /\ UNCHANGED <<tp, scen, up, srvc, terr>>
+       [] OTHER -> UNCHANGED <<tp, scen, up, srvc, terr, nv>>
 
 Spec == Init /\ [][Next]_vars
 Accepted == TLCGet("stats").diameter = NL + 1
